@@ -1813,8 +1813,8 @@ mod pattern_parser {
     if let Token(_, TokenContent::Operator(TokenOp::Bar)) = parser.peek() {
       let mut patterns = vec![first_pattern];
       while let Token(_, TokenContent::Operator(TokenOp::Bar)) = parser.peek() {
-        drop(parser.consume());
-        let next_pattern = parse_single_matching_pattern(parser, Vec::new());
+        let comments_before_bar = parser.consume();
+        let next_pattern = parse_single_matching_pattern(parser, comments_before_bar);
         patterns.push(next_pattern);
       }
       let location = patterns.first().unwrap().loc().union(patterns.last().unwrap().loc());
